@@ -57,6 +57,10 @@ MUT = [
     ('rw_nr_a1_regex_ascii', 'C07', False, [(TB, '        step = ""\n        for x in name:\n            if x in string.ascii_letters and step in ("", "A"):\n                step = "A"\n                continue\n            elif step in ("A", "A1") and x in string.digits:\n                step = "A1"\n                continue\n            else:\n                step = ""\n                break\n        if step == "A1":\n', '        if re.fullmatch(r"[A-Za-z]+[0-9]+", name):\n')]),
     ('rw_nr_scanner_renamed', 'C07', False, [(TB, '        step = ""\n        for x in name:\n            if x in string.ascii_letters and step in ("", "A"):\n                step = "A"\n                continue\n            elif step in ("A", "A1") and x in string.digits:\n                step = "A1"\n                continue\n            else:\n                step = ""\n                break\n        if step == "A1":\n', '        state = ""\n        for ch in name:\n            if ch in string.ascii_letters and state in ("", "L"):\n                state = "L"\n                continue\n            elif state in ("L", "LD") and ch in "0123456789":\n                state = "LD"\n                continue\n            else:\n                state = ""\n                break\n        if state == "LD":\n')]),
     ('table_name_strip_ascii_only', 'C07', True, [(TB, '    name = name.strip()\n    if not name:\n        raise ValueError("Empty name not allowed.")', '    name = name.strip(" \\t\\r\\n")\n    if not name:\n        raise ValueError("Empty name not allowed.")')]),
+    # round 4: whole-table transformations as history steps
+    ('optimize_width_cache_only_when_trimmed', 'C07', True, [(TB, '                    if diff == 0:\n                        break\n        # raz cache of columns\n        self._indexes["_cmap"] = {}\n        self._compute_table_cache()\n\n    def transpose', '                    if diff == 0:\n                        break\n            # raz cache of columns\n            self._indexes["_cmap"] = {}\n            self._compute_table_cache()\n\n    def transpose')]),
+    ('rstrip_cache_only_when_trimmed', 'C01', True, [(TB, '                    if diff == 0:\n                        break\n        # raz cache of columns\n        self._indexes["_cmap"] = {}\n        self._compute_table_cache()\n\n    def optimize_width', '                    if diff == 0:\n                        break\n            # raz cache of columns\n            self._indexes["_cmap"] = {}\n            self._compute_table_cache()\n\n    def optimize_width')]),
+    ('row_rstrip_stale_rmap', 'C01', True, [(RW, '            self.delete(cell)\n        self._compute_row_cache()\n        self._indexes["_rmap"] = {}\n\n    def _current_length', '            self.delete(cell)\n        self._indexes["_rmap"] = {}\n\n    def _current_length')]),
     # behaviour-preserving rewrites
     ('rw_insert_map_once_insert', 'C01', False, [(EC, '    new_map = orig_map[:odf_idx]\n    new_map.append(juska)\n    new_map.extend([(x + repeated) for x in orig_map[odf_idx:]])\n    return new_map',
                                                   '    new_map = [(x + repeated) for x in orig_map]\n    new_map[:odf_idx] = orig_map[:odf_idx]\n    new_map.insert(odf_idx, juska)\n    return new_map')]),
